@@ -22,6 +22,7 @@ fn main() {
     }
     e3::SEED.store(seed, std::sync::atomic::Ordering::Relaxed);
     session::install_quiet_panic_hook();
+    bfs::set_budget(if tier == "quick" { 150.0 } else { 4.0 * 3600.0 });
     let mut rep = Report { prop: prop.clone(), tier: tier.clone(), ..Default::default() };
     match prop.as_str() {
         "C01" => checks_e1::c01(&mut rep, &tier, seed, "C01"),
